@@ -193,7 +193,7 @@ Proof.
     assert (Hin : In (MP p) arrivals) by (apply in_payloads; rewrite E; left; reflexivity).
     apply (Permutation_in _ HP) in Hin. apply in_map_iff in Hin as [o [Hm Ho]].
     specialize (H o Ho). destruct o; simpl in *; discriminate.
-  - split; auto. intros _ o Ho. destruct o as [c d|e| |dl]; auto.
+  - split; auto. intros _ o Ho. destruct o as [c d|e| |dl|e c0 d0]; auto.
     assert (Hin : In (MP {| data := d; complete := c |}) arrivals).
     { apply (Permutation_in _ (Permutation_sym HP)). apply in_map_iff. exists (OPayload c d). auto. }
     apply in_payloads in Hin. rewrite Hc in Hin. contradiction.
